@@ -1,5 +1,6 @@
 import TinsModel.Follower.Model
 import TinsModel.Tcp.Spec
+import TinsModel.Ack.Spec
 /-
   Specification side of property C07, written from the property text (not from libtins):
 
@@ -19,7 +20,14 @@ import TinsModel.Tcp.Spec
        limits    – BUFFERED_DATA termination iff the counters shown with it exceed a limit; a connection that stays
                    live is within both limits and its byte counter equals the bytes really held;
        timeout   – a TIMEOUT is reported only for a live connection idle for at least the keep-alive, once; with
-                   non-decreasing timestamps no connection stays live once idle for two keep-alive periods.
+                   non-decreasing timestamps no connection stays live once idle for two keep-alive periods;
+       sacklimit – SACKED_SEGMENTS termination iff the connection is within both buffering limits and the SACKed-interval
+                   count shown with it exceeds the limit; a connection that stays live holds at most that many intervals;
+       acktrack  – a flow without ACK tracking records no interval; a flow with ACK tracking shows, from the segment that
+                   completes its direction's handshake on and for as long as the acknowledgements it carries are what a
+                   receiver emits (C19's `pktOK`), the cumulative ACK and exactly the maximal runs of SACKed positions
+                   above it (C19's `stateVerdict`, the set-of-acknowledged-bytes definition);
+       exception – no exception leaves `process_packet` (every callback is installed).
 -/
 namespace Tins.SF
 open Tins Tins.DT
@@ -65,8 +73,17 @@ inductive ObsEv
   | data (sid : Sid) (client : Bool) (len hash : Nat)
   | ooo (sid : Sid) (client : Bool)
   | closed (sid : Sid)
-  | term (sid : Sid) (r : Reason) (chunks bytes : Nat)
+  | term (sid : Sid) (r : Reason) (chunks bytes sacked : Nat)
+  | exc (name : String)
 deriving DecidableEq, Repr
+
+/-- observed ACK-tracker state of one flow -/
+structure ObsAck where
+  tracking : Bool := false
+  ack : Nat := 0
+  ivn : Nat := 0
+  ivs : Option (List (Nat × Nat)) := none     -- `none`: not shown / not parsed
+deriving Repr
 
 /-- observed counters of a live stream -/
 structure ObsStatus where
@@ -76,6 +93,8 @@ structure ObsStatus where
   cb : Nat
   sb : Nat
   real : Nat
+  cak : ObsAck := {}
+  sak : ObsAck := {}
 deriving Repr
 
 /-- one direction of a reference connection -/
@@ -86,6 +105,13 @@ structure RDir where
   segs : List Seg := []          -- arrivals in this direction, offsets relative to `base`
   delivered : Nat := 0           -- bytes handed over so far
   specified : Bool := true       -- all data so far is consistent with the declared stream
+  -- what an observer of this direction's acknowledgements knows (positions are absolute: numbers at or above the first
+  -- acknowledgement number, whose own value is its 32-bit image)
+  akPhase : Nat := 0             -- 0 nothing seen, 1 the direction's SYN seen, 2 handshake complete: `akA`, `akSeen` valid
+  akA : Nat := 0                 -- cumulative ACK
+  akSeen : List Ack.Spec.Blk := []
+  akSack : Bool := true          -- SACK blocks are taken into account
+  akSpec : Bool := true          -- the acknowledgements so far are what a receiver emits
 deriving Repr
 
 structure RConn where
@@ -147,13 +173,13 @@ def fnv64 (bs : Bytes) : Nat :=
   (bs.foldl (fun (h : UInt64) b => (h ^^^ b.toUInt64) * 1099511628211) 14695981039346656037).toNat
 
 def isTimeout : ObsEv → Bool
-  | .term _ .timeout _ _ => true
+  | .term _ .timeout _ _ _ => true
   | _ => false
 
 /-- rank of an event kind in the order a single packet can produce them -/
 def evRank : ObsEv → Nat
   | .new _ _ => 0 | .ooo _ _ => 1 | .data _ _ _ _ => 1 | .closed _ => 2
-  | .term _ .timeout _ _ => 4 | .term _ _ _ _ => 3
+  | .term _ .timeout _ _ _ => 4 | .term _ _ _ _ _ => 3 | .exc _ => 5
 
 def ranksSorted : List Nat → Bool
   | a :: b :: r => decide (a ≤ b) && ranksSorted (b :: r)
@@ -222,6 +248,48 @@ def checkDeliver (acl : Bool) (d d' : RDir) (decl : Option Decl) (evs : List (Na
         else none
     | _ => some "more than one data callback for one packet"
 
+/-- SACK blocks of a segment as absolute half-open blocks, read forward from the segment's own (absolute) ACK;
+    a trailing odd edge is no block -/
+def blocksAbs (A : Nat) : List Nat → List Ack.Spec.Blk
+  | l :: r :: rest => let la := Ack.Spec.unwrapFwd A l; (la, la + sub32 r l) :: blocksAbs A rest
+  | _ => []
+
+/-- the acknowledgement side of a packet travelling in direction `d` -/
+def RDir.advanceAck (d : RDir) (p : Pkt) : RDir :=
+  if !d.akSpec then d else
+  match d.akPhase with
+  | 0 => if p.syn && !p.fin && !p.rst then { d with akPhase := 1 } else { d with akSpec := false }
+  | 1 =>
+    if p.fin || p.rst then { d with akSpec := false }
+    else if !p.ackf then d
+    else
+      -- the handshake of this direction is complete: knowledge starts here (the value of the ACK number is its own image)
+      let bl := match p.sack with | .edges e => blocksAbs p.ack e | _ => []
+      let k : Ack.Spec.Pkt := ⟨p.ack, bl⟩
+      if Ack.Spec.pktOK p.ack [] k then { d with akPhase := 2, akA := p.ack, akSeen := bl, akSack := true }
+      else { d with akSpec := false }
+  | _ =>
+    if !p.ackf then { d with akSpec := false } else
+    let a := Ack.Spec.unwrapFwd d.akA p.ack
+    let bl := match p.sack with | .edges e => blocksAbs a e | _ => []
+    let k : Ack.Spec.Pkt := ⟨a, bl⟩
+    if Ack.Spec.pktOK d.akA d.akSeen k then { d with akA := a, akSeen := if d.akSack then d.akSeen ++ bl else d.akSeen }
+    else { d with akSpec := false }
+
+/-- judge what a flow shows of its ACK tracker against the direction's reference -/
+def ackVerdict (tracking : Bool) (d : RDir) (a : ObsAck) : Option String :=
+  if a.tracking != tracking then some "ack_tracking_enabled differs from what the application asked for" else
+  if !tracking then
+    if a.ivn != 0 then some "a flow without ACK tracking recorded SACKed intervals" else none
+  else if !d.akSpec || d.akPhase != 2 then none
+  else match a.ivs with
+    | none => none
+    | some ivs =>
+      if ivs.length != a.ivn then some "interval count differs from the intervals shown" else
+      if ivs.length > 48 then none else
+      let v := Ack.Spec.stateVerdict d.akA d.akSeen a.ack ivs
+      if v == "" then none else some v
+
 /-- the idle sweep: judge the TIMEOUT terminations reported after a packet at time `ts` -/
 def Oracle.sweep (o : Oracle) (twin : Bool) (ts : Nat) (evs : List ObsEv) : Oracle × Verdict :=
   match evs with
@@ -231,7 +299,7 @@ def Oracle.sweep (o : Oracle) (twin : Bool) (ts : Nat) (evs : List ObsEv) : Orac
     else (o, .ok)
   | e :: r =>
     match e with
-    | .term sid _ _ _ =>
+    | .term sid _ _ _ _ =>
       match o.conns.find? (fun c => c.sid == sid) with
       | none => viol o twin "timeout" "time-out reported for a connection that is not live"
       | some c =>
@@ -251,6 +319,9 @@ def Oracle.packet (o : Oracle) (p : Pkt) (evs : List ObsEv) (st : Option ObsStat
   let main := evs.filter (fun e => !isTimeout e)
   let sweep := evs.filter isTimeout
   if !ranksSorted (evs.map evRank) then viol o twin "order" "callbacks in an impossible order" else
+  match evs.find? (fun e => match e with | .exc _ => true | _ => false) with
+  | some (.exc n) => viol o twin "exception" s!"{n} left process_packet"
+  | _ =>
   -- announce
   let live := o.conns.find? (·.has p.v6 src dst)
   let isSyn := p.syn && !p.ackf
@@ -266,8 +337,9 @@ def Oracle.packet (o : Oracle) (p : Pkt) (evs : List ObsEv) (st : Option ObsStat
     | none =>
       if create then
         some { v6 := p.v6, cl := src, sv := dst, lastSeen := p.ts,
-               c2s := if isSyn then {} else { base := some p.dataSeq },
-               s2c := if isSyn then {} else { base := some p.ack } }
+               -- attached mid-stream: both trackers are default-constructed (ACK number 0, SACK only after use_sack)
+               c2s := if isSyn then {} else { base := some p.dataSeq, akPhase := 2, akSack := o.cfg.useSack },
+               s2c := if isSyn then {} else { base := some p.ack, akPhase := 2, akSack := o.cfg.useSack } }
       else none
   let rest := main.filter (fun e => match e with | .new _ _ => false | _ => true)
   match conn? with
@@ -283,14 +355,18 @@ def Oracle.packet (o : Oracle) (p : Pkt) (evs : List ObsEv) (st : Option ObsStat
       | .data s cl _ _ => s != sid || cl != toServer
       | .ooo s cl => s != sid || cl != toServer
       | .closed s => s != sid
-      | .term s _ _ _ => s != sid
-      | .new _ _ => false)
+      | .term s _ _ _ _ => s != sid
+      | .new _ _ => false
+      | .exc _ => false)
     if misrouted then viol o twin "route" "callback for another connection or direction" else
     let decl := lookupDecl o.decls p.v6 src dst
     let d := if toServer then c.c2s else c.s2c
-    let d' := d.advance p decl
+    let ignored := if toServer then o.cfg.ignC else o.cfg.ignS
+    let d' := (d.advance p decl).advanceAck p
     let dataEvs := rest.filterMap (fun e => match e with | .data _ _ l h => some (l, h) | _ => none)
-    match checkDeliver o.cfg.acl d d' decl dataEvs with
+    if ignored && !(dataEvs.isEmpty && !rest.any (fun e => match e with | .ooo _ _ => true | _ => false)) then
+      viol o twin "ignore" "data / out-of-order callback for a direction the application asked to ignore" else
+    match (if ignored then none else checkDeliver o.cfg.acl d d' decl dataEvs) with
     | some msg => viol o twin "deliver" msg
     | none =>
     let d'' : RDir := match d'.owed decl with
@@ -304,13 +380,18 @@ def Oracle.packet (o : Oracle) (p : Pkt) (evs : List ObsEv) (st : Option ObsStat
       viol o twin "forget" (if finished then "connection finished (FIN both ways or RST) but not reported closed"
                             else "closed callback for a connection that is not finished") else
     -- limits
-    let terms := rest.filterMap (fun e => match e with | .term _ r ch b => some (r, ch, b) | _ => none)
+    let terms := rest.filterMap (fun e => match e with | .term _ r ch b sk => some (r, ch, b, sk) | _ => none)
     match terms with
     | _ :: _ :: _ => viol o twin "limits" "terminated twice"
-    | [(r, ch, b)] =>
-      if r != .bufferedData then viol o twin "limits" "termination reason is not BUFFERED_DATA" else
-      if !(decide (ch > o.cfg.maxChunks) || decide (b > o.cfg.maxBytes)) then
+    | [(r, ch, b, sk)] =>
+      let overBuf := decide (ch > o.cfg.maxChunks) || decide (b > o.cfg.maxBytes)
+      if r == .timeout then viol o twin "limits" "unexpected reason" else
+      if r == .bufferedData && !overBuf then
         viol o twin "limits" s!"terminated with {ch} chunks / {b} bytes buffered, within the limits" else
+      if r == .sackedSegments && overBuf then
+        viol o twin "sacklimit" s!"SACKED_SEGMENTS reported with {ch} chunks / {b} bytes buffered, over the buffering limits" else
+      if r == .sackedSegments && !decide (sk > o.cfg.maxSacked) then
+        viol o twin "sacklimit" s!"terminated with {sk} SACKed intervals, within the limit" else
       if st.isSome then viol o twin "forget" "terminated connection is still found" else
       Oracle.sweep { o with conns := others } twin p.ts sweep
     | [] =>
@@ -325,6 +406,12 @@ def Oracle.packet (o : Oracle) (p : Pkt) (evs : List ObsEv) (st : Option ObsStat
           if s.cch + s.sch > o.cfg.maxChunks || s.cb + s.sb > o.cfg.maxBytes then
             viol o twin "limits" s!"live connection holds {s.cch + s.sch} chunks / {s.cb + s.sb} bytes, over the limits" else
           if s.real != s.cb + s.sb then viol o twin "limits" "byte counter differs from the bytes held" else
+          if s.cak.ivn + s.sak.ivn > o.cfg.maxSacked then
+            viol o twin "sacklimit" s!"live connection holds {s.cak.ivn + s.sak.ivn} SACKed intervals, over the limit" else
+          match ackVerdict o.cfg.ackC c'.c2s s.cak, ackVerdict o.cfg.ackS c'.s2c s.sak with
+          | some m, _ => viol o twin "acktrack" ("client flow: " ++ m)
+          | none, some m => viol o twin "acktrack" ("server flow: " ++ m)
+          | none, none =>
           Oracle.sweep { o with conns := c' :: others } twin p.ts sweep
 
 /-- judge a `find_stream` result -/
